@@ -1,6 +1,7 @@
 package main
 
 import (
+	"fmt"
 	"go/types"
 
 	"golang.org/x/tools/go/ssa"
@@ -204,4 +205,63 @@ func isFreshRoot(root ssa.Value) bool {
 	}
 	_, isStruct := derefType(a.Type()).Underlying().(*types.Struct)
 	return isStruct
+}
+
+// checkLockBalance: every Lock/RLock is released on every path to a return of the same function — by a plain
+// Unlock/RUnlock of the same mutex on the path, or by a deferred one registered on the path.  A leaked lock wedges
+// every later request (server side) or call (client side) that needs it.
+func checkLockBalance(c *Ctx, rule string, want func(fn *ssa.Function) bool, floor int) {
+	p := c.P
+	n := 0
+	for _, fn := range p.LibFuncs() {
+		if !want(fn) {
+			continue
+		}
+		locks, _ := lockCallsIn(fn)
+		ord := map[string]int{}
+		for _, l := range locks {
+			l := l
+			n++
+			k := fnName(fn) + ": " + l.Key + "." + l.Kind
+			ord[k]++
+			key := fmt.Sprintf("%s #%d", k, ord[k])
+			wantOp := "Unlock"
+			if l.Kind == "RLock" {
+				wantOp = "RUnlock"
+			}
+			releases := func(in ssa.Instruction) bool {
+				var cc *ssa.CallCommon
+				switch x := in.(type) {
+				case *ssa.Call:
+					cc = &x.Call
+				case *ssa.Defer:
+					cc = &x.Call
+				default:
+					return false
+				}
+				op, root, key2, ok := mutexOp(cc)
+				if ok {
+					return op == wantOp && key2 == l.Key && sameRoot(root, l.Root)
+				}
+				// a deferred closure that unlocks
+				if d, isD := in.(*ssa.Defer); isD {
+					if mc, isMC := d.Call.Value.(*ssa.MakeClosure); isMC {
+						found := false
+						eachInstr(mc.Fn.(*ssa.Function), func(y ssa.Instruction) {
+							if cc2 := callOf(y); cc2 != nil {
+								if op2, _, k2, ok2 := mutexOp(cc2); ok2 && op2 == wantOp && k2 == l.Key {
+									found = true
+								}
+							}
+						})
+						return found
+					}
+				}
+				return false
+			}
+			leak := reachAvoiding(fn, l.In, isReturn, releases)
+			c.check(!leak, rule, key, p.Pos(l.In.Pos()), "released on every path to a return", "a return is reachable with "+l.Key+" still held ("+l.Kind+" without "+wantOp+"): every later user of the lock blocks for ever")
+		}
+	}
+	c.check(n >= floor, rule, "lock sites", "?", fmt.Sprintf("%d Lock/RLock calls", n), fmt.Sprintf("only %d Lock/RLock calls found (%d expected)", n, floor))
 }
